@@ -87,6 +87,20 @@ USER_FLAGS = {'UserErr': (1, False, False), 'UserTypeErr': (2, True, False), 'Us
               'KeyError': (5, False, False), 'ValueError': (6, False, False), 'AttributeError': (7, False, False)}
 
 
+PLAIN_ORIGINS = {'int', 'str', 'float', 'object', 'tuple', 'type', 'G', 'abc.Sized', 'cls_noninst'}
+
+
+def galias_odd_origin(h):
+    """the hint contains a types.GenericAlias whose origin is not a plain class"""
+    if h[0] == 'leaf':
+        return False
+    if h[0] == 'deep':
+        return galias_odd_origin(h[3])
+    if h[1] == 'galias_junk_origin' and not (h[2][0][0] == 'leaf' and h[2][0][1] in PLAIN_ORIGINS):
+        return True
+    return any(galias_odd_origin(c) for c in h[2])
+
+
 def leak_kind(api, exc):
     """Python-side mirror of Corr.phase_ok used only to describe a failure (the verdict is the model's)"""
     if not exc['beartype']:
@@ -184,7 +198,8 @@ def run(ctx):
         for case, api, out, ws in index[j]:
             exc = None if out['ok'] else out['exc']
             if exc is not None:
-                shape = {'clause': 'leak', 'kind': leak_kind(api, exc), 'cls': exc['cls'], 'site': exc.get('site')}
+                shape = {'clause': 'leak', 'kind': leak_kind(api, exc), 'cls': exc['cls'], 'site': exc.get('site'),
+                         'galias_odd_origin': galias_odd_origin(case['hint'])}
                 what = 'a %s exception %s leaves %s (raised under %s)' % (shape['kind'], exc['cls'], api, exc.get('site'))
             else:
                 bad = [w for w in ws if not w['beartype']]
